@@ -527,6 +527,10 @@ class Project(MessageHandler):
                     task[("end", scIdx)] = start
                     task[("scheduled", scIdx)] = True
                 elif end and not start:
+                    if task.get("forward", scIdx) and task.data[scIdx].getAllDependencies():
+                        # A forward-scheduled milestone is placed by its dependencies (like a
+                        # forward effort task with an end date): the main loop handles it.
+                        continue
                     task[("start", scIdx)] = end
                     task[("scheduled", scIdx)] = True
                 elif start and end:
